@@ -575,7 +575,7 @@ func exactCmpPackage(c *Ctx) { exactCmpIn(c, quotaCorePkg, "elasticquota/core", 
 // exactCmpIn: the package-wide form of EXACT-CMP for any package that compares resource quantities.
 func exactCmpIn(c *Ctx, pkgRel, label string, floor int) {
 	r := c.R
-	r.Rule("EXACT-CMP(package): in package "+label+" no comparison has a Quantity.Value() reading on both sides (Value() rounds up to whole units, so two CPU amounts inside one core compare equal: a change-detection guard built on it drops sub-core request changes and the runtime keeps depending on history); quantities are compared by Cmp/Equal")
+	r.Rule("EXACT-CMP(package): in package " + label + " no comparison has a Quantity.Value() reading on both sides (Value() rounds up to whole units, so two CPU amounts inside one core compare equal: a change-detection guard built on it drops sub-core request changes and the runtime keeps depending on history); quantities are compared by Cmp/Equal")
 	isValue := func(v ssa.Value) bool {
 		cl, _ := an.ResultOfCall(firstSource(v))
 		if cl == nil {
